@@ -258,7 +258,17 @@ func (v *Value) getProtoMember(member Value) (*Cell, error) {
 	if err != nil || cell == nil {
 		return cell, err
 	}
-	return NewCell(cell.Value), nil
+	// hand out a copy, the prototype is shared by every value of its kind. The
+	// copy remembers the receiver and the member name (like a speculative
+	// object), so that assigning to it stores a member on the receiver, or
+	// fails, instead of being lost
+	protoCell := NewCell(cell.Value)
+	if cell.Value.Tag == ValueNativeFn || cell.Value.Tag == ValueFn {
+		name := member.String()
+		protoCell.Value.Str = &name
+		protoCell.Value.ParentObj = v
+	}
+	return protoCell, nil
 }
 
 func (v *Value) GetMember(member Value) (*Cell, error) {
@@ -303,10 +313,15 @@ func (v *Value) GetMember(member Value) (*Cell, error) {
 			return v.getProtoMember(member)
 		}
 		index := int(*member.Num)
+		// characters are detached copies that remember the string they came
+		// from, so that assigning to one is an error instead of being lost
+		fIndex := float64(index)
 		if index < 0 || index >= len(*v.Str) {
-			return NewCell(NewValue(nil)), nil
+			return NewCell(Value{Tag: ValueNil, ParentObj: v, Num: &fIndex}), nil
 		}
-		return NewCell(NewString(string((*v.Str)[index]))), nil
+		char := NewString(string((*v.Str)[index]))
+		char.ParentObj = v
+		return NewCell(char), nil
 	default:
 		if v.Proto != nil {
 			return v.getProtoMember(member)
